@@ -1543,6 +1543,17 @@ def np_logspace(interp, args, kw):
 axiom("logspace", "np.logspace(a,b,n) = 10**np.linspace(a,b,n); pow10(log10(x)) = x for x > 0 is instantiated where used")
 
 
+def np_mean(interp, args, kw):
+    """np.mean of a 1-D array: sum / length."""
+    a = args[0]
+    n, get, k = seq_view_frozen(interp, a)
+    s = np_sum(interp, [a], {})
+    ne = z3.IntVal(n) if isinstance(n, int) else n
+    interp.side_obligation("np.mean of a non-empty array", ne > 0)
+    se = to_real(num_expr(s))
+    return Sym(se / z3.ToReal(ne))
+
+
 def np_size(interp, args, kw):
     return as_len(interp, args[0])
 
@@ -1673,6 +1684,7 @@ def install(interp):
     m[np.amax] = np_extreme("max")
     m[np.sort] = np_sort
     m[np.arange] = np_arange
+    m[np.mean] = np_mean
     m[np.logspace] = np_logspace
     m[np.log10] = unary_real(LOG10, np.log10)
     m[math.log10] = unary_real(LOG10, math.log10)
